@@ -157,7 +157,7 @@ def range_tables(ctx):
     ctx.oblige("spec: every hydrogen-bond and Coulomb kernel of the shipped parameters vanishes at 20 A (%d table entries)" % n, not bad, str(bad[:2]))
 
 
-def run(ctx):
+def _run(ctx):
     rnd = ctx.rng
     range_tables(ctx)
     parts = []
@@ -255,6 +255,12 @@ def run(ctx):
     ctx.coverage["solver_unions"] = n
     ctx.coverage["solver_leaks_found"] = len(leaks)
     ctx.oblige("spec: the iterative solver treats independent clusters independently (%d unions; apart from listed known findings)" % n, not unlisted, str(unlisted[:1]))
+
+
+def run(ctx):
+    from .. import scoring_common
+    with scoring_common.tie(ctx, "C05's parts and unions"):
+        _run(ctx)
 
 
 def replay(ctx, rep):
